@@ -7,8 +7,9 @@
      free the old value of the target, THEN claim; text/list element assignment is in place.
    * compiler.go:2048-2068 call site: Referenz parameter = address of the caller's variable; a value
      parameter of non-primitive type is claimed/copied by the caller into storage the callee frees —
-     unless (-O2) the callee's parameter is judged constant: then the callee receives the caller's
-     storage itself (shallow: the same buffer) ...
+     unless (-O2) the callee's parameter is judged constant AND (91b5d4a, mayElideArgCopy) the argument
+     is a local variable nothing else can reach during the call: then the callee receives the
+     caller's storage itself (shallow: the same buffer) ...
    * compiler.go:435-448 exitFuncScope: ... and does not free it.
    * const_func_param.go:57-171: the per-callee analysis (`analyse` below), in traversal order,
      including its order dependence for self-recursive calls (the callee's table is read while it
@@ -81,9 +82,9 @@ Definition mark (x : name) (c : cstate) : cstate :=
 Definition mark_all (xs : list name) (c : cstate) : cstate := fold_right mark c xs.
 
 (* the table a call to function k sees while function j is analysed: an earlier function's final
-   table, the current (partial) table for a self call, nothing for a function not yet visited *)
+   table; nothing for a recursive call or a function not yet visited *)
 Definition seen_const (done : meta) (j : nat) (cur : cstate) (k i : nat) : bool :=
-  if Nat.eqb k j then nth i (map snd cur) false
+  if Nat.eqb k j then false   (* 91b5d4a: the table of the function being analysed is not final *)
   else if Nat.ltb k j then is_const done k i else false.
 
 Fixpoint mark_args (isc : nat -> bool) (i : nat) (args : list arg) (c : cstate) : cstate :=
@@ -142,7 +143,10 @@ Notation "'do' x <- r ; k" := (bind r (fun x => k)) (at level 200, x pattern, r 
 
 Inductive outv := OInt (z : Z) | OSeq (c : list Z).
 
-Record state := mkSt { vars : list slot; heap : list cell; tmps : list nat; out : list outv }.
+(* fbase: the first variable slot of the running activation — the globals and whatever its Referenz
+   parameters are bound to lie below it (what `VarDecl.IsGlobal` / `varwrapper.isRef` tell the
+   code generator statically) *)
+Record state := mkSt { vars : list slot; heap : list cell; tmps : list nat; out : list outv; fbase : nat }.
 Definition env := list (name * nat).
 
 Fixpoint lookup (e : env) (x : name) : option nat :=
@@ -158,10 +162,11 @@ Fixpoint upd {A} (l : list A) (n : nat) (v : A) : list A :=
   | x :: r, S n => x :: upd r n v
   end.
 
-Definition set_vars (st : state) (v : list slot) := mkSt v (heap st) (tmps st) (out st).
-Definition set_heap (st : state) (h : list cell) := mkSt (vars st) h (tmps st) (out st).
-Definition set_tmps (st : state) (t : list nat) := mkSt (vars st) (heap st) t (out st).
-Definition add_out (st : state) (o : outv) := mkSt (vars st) (heap st) (tmps st) (out st ++ [o]).
+Definition set_vars (st : state) (v : list slot) := mkSt v (heap st) (tmps st) (out st) (fbase st).
+Definition set_heap (st : state) (h : list cell) := mkSt (vars st) h (tmps st) (out st) (fbase st).
+Definition set_tmps (st : state) (t : list nat) := mkSt (vars st) (heap st) t (out st) (fbase st).
+Definition set_fbase (st : state) (b : nat) := mkSt (vars st) (heap st) (tmps st) (out st) b.
+Definition add_out (st : state) (o : outv) := mkSt (vars st) (heap st) (tmps st) (out st ++ [o]) (fbase st).
 
 Definition alloc (c : cell) (st : state) : nat * state :=
   (length (heap st), set_heap st (heap st ++ [c])).
@@ -405,6 +410,20 @@ Definition call_finish (e : env) (dst : option name) (saved : list nat) (result 
   | Some _, None => Er EStuck
   end.
 
+(* mayElideArgCopy (compiler.go, 91b5d4a): the caller hands its own storage to a parameter the callee only
+   reads only for (a part of) a local variable of the running activation — not a global, not what a
+   Referenz parameter is bound to — that is not also passed by Referenz in the same call *)
+Definition is_ref_of (x : name) (a : arg) : bool := match a with ARef y => Nat.eqb y x | AVal _ => false end.
+Definition may_elide (e : env) (all : list arg) (ex : expr) (st : state) : bool :=
+  match ex with
+  | EVar x =>
+      match lookup e x with
+      | Some a => Nat.leb (fbase st) a && negb (existsb (is_ref_of x) all)
+      | None => false
+      end
+  | _ => false
+  end.
+
 Section Exec.
   Variable elide : bool.       (* false: every value parameter is a fresh copy (-O0/-O1, the language rule) *)
   Variable mt : meta.          (* result of the constant-parameter analysis *)
@@ -413,7 +432,7 @@ Section Exec.
 
   (* caller side of a call: bind the parameters of function f in order; returns the callee's
      environment and the state *)
-  Fixpoint bind_params (f i : nat) (ps : list param) (args : list arg) (e : env)
+  Fixpoint bind_params (all : list arg) (f i : nat) (ps : list param) (args : list arg) (e : env)
            (ce : env) (st : state) : res (env * state) :=
     match ps, args with
     | [], [] => Ok (ce, st)
@@ -421,7 +440,7 @@ Section Exec.
         match pref p, a with
         | true, ARef x =>
             match lookup e x with
-            | Some ad => bind_params f (S i) ps' args' e ((pname p, ad) :: ce) st
+            | Some ad => bind_params all f (S i) ps' args' e ((pname p, ad) :: ce) st
             | None => Er EStuck
             end
         | false, AVal ex =>
@@ -430,18 +449,18 @@ Section Exec.
             match v with
             | RInt z =>
                 let '(ad, st2) := new_var (VInt z) st1 in
-                bind_params f (S i) ps' args' e ((pname p, ad) :: ce) st2
+                bind_params all f (S i) ps' args' e ((pname p, ad) :: ce) st2
             | RSeq l tmp =>
-                if elide && is_const mt f i && negb tmp then
+                if elide && is_const mt f i && negb tmp && may_elide e all ex st1 then
                   (* val = eval: the callee's parameter is a shallow handle on the caller's buffer *)
                   let '(lh, st1') := alloc (Alias (target l st1)) st1 in
                   let '(ad, st2) := new_var (VPtr lh) st1' in
-                  bind_params f (S i) ps' args' e ((pname p, ad) :: ce) st2
+                  bind_params all f (S i) ps' args' e ((pname p, ad) :: ce) st2
                 else
                   do r2 <- claim_or_copy l tmp st1;
                   let '(l', st2) := r2 in
                   let '(ad, st3) := new_var (VPtr l') st2 in
-                  bind_params f (S i) ps' args' e ((pname p, ad) :: ce) st3
+                  bind_params all f (S i) ps' args' e ((pname p, ad) :: ce) st3
             end
         | _, _ => Er EStuck
         end
@@ -470,14 +489,14 @@ Section Exec.
     | None => Er EStuck
     | Some fd =>
         let base := length (vars st) in
-        do r <- bind_params f 0 (fparams fd) args e genv st;
+        do r <- bind_params args f 0 (fparams fd) args e genv st;
         let '(ce, st1) := r in
         let saved := tmps st1 in
-        do st2 <- ex ce (fbody fd) (set_tmps st1 []);
+        do st2 <- ex ce (fbody fd) (set_fbase (set_tmps st1 []) base);
         do r2 <- ret_value ce (fret fd) st2;
         let '(result, st6) := r2 in
         do st7 <- exit_frame base st6;
-        call_finish e dst saved result st7
+        call_finish e dst saved result (set_fbase st7 (fbase st))
     end.
 
   Fixpoint exec (fuel : nat) (e : env) (ss : list stmt) (st : state) {struct fuel} : res state :=
@@ -511,7 +530,7 @@ Section Exec.
     end.
 End Exec.
 
-Definition st0 : state := mkSt [] [] [] [].
+Definition st0 : state := mkSt [] [] [] [] 0.
 
 Fixpoint init_globals (gs : list (name * expr)) (e : env) (st : state) : res (env * state) :=
   match gs with
@@ -523,7 +542,7 @@ Fixpoint init_globals (gs : list (name * expr)) (e : env) (st : state) : res (en
 Definition run (elide : bool) (fuel : nat) (p : program) : res (list outv) :=
   do r <- init_globals (pglobals p) [] st0;
   let '(ge, st) := r in
-  do st' <- exec elide (analyse (pfuns p)) (pfuns p) ge fuel ge (pmain p) st;
+  do st' <- exec elide (analyse (pfuns p)) (pfuns p) ge fuel ge (pmain p) (set_fbase st (length (vars st)));
   Ok (out st').
 
 Definition run_copy := run false.
